@@ -6,6 +6,11 @@ Local Close Scope Q_scope.
 Local Open Scope bool_scope.
 Set Default Timeout 120.
 
+Ltac complete_script i ::=
+  unfold dev_noncons in *; unfold_dom; unfold_all; destruct (origin i) eqn:O; bsimp; try reflexivity; try solve [fing];
+  (destruct (cons_wf i) eqn:W; [use_wf i | use_bad i]);
+  rw_origin i O; prep_lists; rw_goal; bsimp; fing; crunch.
+
 (* ================================================================== kPathCover *)
 Theorem validate_sound_kPathCover i : validate_kPathCover i = RaiseValueError -> in_domain_kPathCover i = false.
 Proof. intros H. destruct (in_domain_kPathCover i) eqn:D; [exfalso|reflexivity]. sound_script i. Qed.
@@ -146,10 +151,10 @@ Theorem old_validate_kPathCover_refuted_coverage_length :
 Proof. exists (set_covlen ex_dag (Some (3#2)%Q) true). vm_compute. auto. Qed.
 
 (* ---------------------------------------------------------------- k and solution_weights_superset *)
-(* kFlowDecomp looks at the caller's k before and independently of the given weights: whatever has_superset says, a k that is
-   not a positive int (0, negative, float, False) never gets through *)
+(* every k-model looks at the caller's k before and independently of the given weights: whatever has_superset says, a k that
+   is not a positive int (0, negative, float, bool, None where it is not documented, str) never gets through *)
 Theorem kFlowDecomp_k_checked_independently_of_given_weights i :
-  k_own_bad i = true -> validate_kFlowDecomp i <> Accept.
+  k_bad i = true -> validate_kFlowDecomp i <> Accept.
 Proof.
   intros K H. unfold validate_kFlowDecomp in H. destruct (origin i) eqn:O; try discriminate;
   unfold_all; norm_hyps; rw_in H; bsimp;
@@ -157,11 +162,13 @@ Proof.
   (destruct (check_cons (internal_cons i)) as [o|] eqn:E2; [apply check_cons_ve in E2; subst o|]);
   bsimp; fin H; crunch.
 Qed.
-(* OPEN: kLeastAbsErrors / kMinPathError never look at the caller's k when the weights are given *)
-Theorem validate_kErrDAG_refuted_k_with_given_weights :
-  exists i, in_domain_kErrDAG i = false /\ k_bad i = true /\ validate_kErrDAG i = Accept.
+Theorem kErrDAG_k_checked_first none_ok i : k_bad_gen none_ok i = true -> validate_kErrDAG none_ok i = RaiseValueError.
+Proof. intros K. unfold validate_kErrDAG. rewrite K. reflexivity. Qed.
+(* OLD BEHAVIOUR (before 29f2322): kLeastAbsErrors / kMinPathError never looked at the caller's k when the weights were given *)
+Theorem old_validate_kErrDAG_refuted_k_with_given_weights :
+  exists i, in_domain_kErrDAG false i = false /\ k_bad i = true /\ old_validate_kErrDAG i = Accept.
 Proof. exists (set_superset (set_k ex_dag (KInt 0)) true). vm_compute. auto. Qed.
-(* OPEN: kFlowDecomp's own test lets a bool through, and with given weights the base class then validates len(weights) *)
-Theorem validate_kFlowDecomp_refuted_bool_k_with_given_weights :
-  exists i, in_domain_kFlowDecomp i = false /\ validate_kFlowDecomp i = Accept.
+(* OLD BEHAVIOUR: kFlowDecomp's own test let a bool through, and with given weights the base class validated len(weights) *)
+Theorem old_validate_kFlowDecomp_refuted_bool_k_with_given_weights :
+  exists i, in_domain_kFlowDecomp i = false /\ old_validate_kFlowDecomp i = Accept.
 Proof. exists (set_superset (set_k ex_dag (KBool true)) true). vm_compute. auto. Qed.
